@@ -139,6 +139,12 @@ func (db *MultiBucketBackend) getBucketWithFilePrefixLocked(bucket string, prefi
 		return nil, gofakes3.BucketNotFound(bucket)
 	}
 
+	// Keys are clean relative paths (see validKey): no key starts with a prefix
+	// whose directory part has an empty, "." or ".." segment.
+	if prefixPath != "" && !validKey(prefixPath) {
+		return gofakes3.NewObjectList(), nil
+	}
+
 	// No key can start with a prefix whose directory part does not exist (or
 	// is a file); that is an empty listing, not a missing bucket:
 	if isDir, err := afero.IsDir(db.bucketFs, filepath.FromSlash(bucketPath)); err != nil && !os.IsNotExist(err) {
